@@ -64,11 +64,15 @@ claimed = {
    ref="§8 C20"),
 }
 
+REASONS = {
+ "C03": "Not decidable by contracts on this code with the installed solvers: the statement is a family of inequalities over Pow/PowApprox (a Maclaurin series with data-dependent termination) and chains of 18-digit truncations; with decimals modelled exactly these are nonlinear integer problems with div/mod on which z3 4.8.12, z3 5.1.0 and cvc5 1.0.3 time out (tried on the equal-weight constant-product case), and with products abstracted (decabstract) the inequality cannot be stated. What contracts do decide about swaps (exact settlement, denoms, frames, share/reserve bookkeeping) is claimed under C02 and C04. A numeric sweep would be testing, a different technique. See DESIGN.md §A.5.",
+ "C05": "Not decidable by contracts on this code with the installed solvers, for the same reason as C03: value comparisons of joins and exits go through CalcJoinPoolShares / CalcExitPool / Pow with nested 18-digit roundings (nonlinear integer arithmetic with div/mod: solver timeouts), and the abstracted form cannot express 'worth at most'. The structural half that contracts reach (an exit must leave shares: shareIn < totalShares is checked by ExitPool; share totals move by exactly the minted/burnt amount) is covered under C02. See DESIGN.md §A.5.",
+}
 not_applicable = {}
 for i in range(1, 21):
     pid = "C%02d" % i
     if pid not in claimed:
-        not_applicable[pid] = "check not built yet in this session (work in progress; see DESIGN.md §8 for the planned contracts)"
+        not_applicable[pid] = REASONS.get(pid, "check not built yet in this session (work in progress; see DESIGN.md §A.4/§8)")
 
 checks = []
 for pid, c in sorted(claimed.items()):
